@@ -59,10 +59,10 @@ def run(res, f, tier):
             ob(got == [want], "C08|constant|%s" % p["rhs"][0], "the literal %s must denote %s, found %s" % (p["rhs"][0], want, got))
     for T, spec in sorted(lexical.LITERALS.items()):
         h = helper_of.get(T)
-        if not h or h not in f.bodies:
+        hpath, outs = grammar.helper_summary(f, g, h.split("::")[-1], opaque=lambda p: p.startswith("parse::unescape")) if h else (None, None)
+        if not hpath:
             ob(False, "C08|wiring|%s" % T, "literal token %s is not converted by a helper function (%s)" % (T, h))
             continue
-        outs, it = evalsum.summarize_fn(f, h, arg_names=["value"], opaque=lambda p: p.startswith("parse::unescape"))
         rows = sorted((c, r) for c, r, _, _ in outs)
         if spec["back"]:
             body = "str::index(value, Range(%d, Sub(str::len(value), %d)))" % (spec["front"], spec["back"])
@@ -106,26 +106,72 @@ def run(res, f, tier):
     un = [d for d in f.bodies if d.endswith("::unescape") and d.startswith("parse::unescape")]
     if len(un) != 1:
         raise Inconclusive("unescape not found")
-    it = Interp(f, loop_bound=2, opaque=lambda p: p.endswith("parse_unicode"), max_paths=40000)
+    # the unicode-escape routine, by what it is: the crate-local function reached from unescape that yields a char or an
+    # error of its own (not unescape's error type)
+    ub = f.bodies[un[0]]
+    un_ret = f.ty_s(ub["locals"][0]["ty"])
+    m_err = re.match(r"std::result::Result<.*, (.+)>$", un_ret)
+    un_err = m_err.group(1) if m_err else "?"
+    pu = []
+    for q in evalsum.reachable_local(f, [un[0]]):
+        qb = f.bodies[q]
+        if q == un[0] or qb.get("parent") or qb["kind"] not in ("Fn", "AssocFn"):
+            continue
+        rt = f.ty_s(qb["locals"][0]["ty"])
+        if rt.startswith("std::result::Result<char, ") and not rt.endswith(", %s>" % un_err):
+            pu.append(q)
+    pu_short = short_callee(pu[0]) if len(pu) == 1 else "?"
+    it = Interp(f, loop_bound=2, opaque=lambda p: p in pu, max_paths=40000)
     paths = it.run(un[0], [("sym", "value")], State())
-    SRC = "Chars::enumerate(str::chars(value))"
-    E0, E1 = "elem0(%s).1" % SRC, "elem1(%s).1" % SRC
+    srcs = set()
+    for s, rv in paths:
+        for c in s.conds:
+            m_src = re.fullmatch(r"next\((.*), #0\)", norm_cond(c)[0])
+            if m_src:
+                srcs.add(m_src.group(1))
+    if len(srcs) != 1:
+        raise Inconclusive("unescape does not walk over one character iterator: %s" % sorted(srcs))
+    SRC = srcs.pop()
+    core_src = re.fullmatch(r"(?:\w+::peekable\()?(Chars::enumerate\(str::chars\(value\)\)|str::chars\(value\)|str::char_indices\(value\))\)?", SRC)
+    ob(bool(core_src), "C08|escape-source", "unescape must walk over the characters of its argument, found %s" % SRC)
+    pair = not (core_src and core_src.group(1) == "str::chars(value)")
+    E0, E1 = ("elem0(%s).1" % SRC, "elem1(%s).1" % SRC) if pair else ("elem0(%s)" % SRC, "elem1(%s)" % SRC)
     table_found = {}
     raw_kept = False
     dangling_err = False
     other_err = False
     unicode_ok = False
+    def is_backslash(conds, e):
+        """True / False / None: `c == '\\'` as a comparison or as a match arm"""
+        v_ = conds.get("Eq(92, %s)" % e)
+        if v_ is not None:
+            return v_ == "val not:0"
+        v_ = conds.get(e, "")
+        if v_ == "val 92":
+            return True
+        if v_.startswith("val not:") and "92" in v_[8:].split(","):
+            return False
+        return None
+
     for s, rv in paths:
         conds = dict(norm_cond(c) for c in s.conds)
         pushes = [show(norm(e[2][1])) for e in s.events if e[0] == "call" and short_callee(e[1]) == "String::push"]
         ret = show(norm(it.resolve(s, rv)))
-        if conds.get("Eq(92, %s)" % E0) == "val 0" and pushes[:1] == [E0]:
+        if is_backslash(conds, E0) is False and pushes[:1] == [E0]:
             raw_kept = True
-        if conds.get("Eq(92, %s)" % E0) == "val not:0":
+        if is_backslash(conds, E0) is True:
             if conds.get("next(%s, #1)" % SRC) == "fails":
                 dangling_err = dangling_err or ret.startswith("Err(InvalidEscape")
                 continue
             v = conds.get(E1, "")
+            if not v:
+                # the escape letter compared one value at a time (a chain of `==`, a search through a constant table)
+                eqs = {int(m_.group(1)): r_ for c_, r_ in conds.items() for m_ in [re.fullmatch(r"Eq\((\d+), %s\)" % re.escape(E1), c_)] if m_}
+                yes = [k_ for k_, r_ in eqs.items() if r_ == "val not:0"]
+                if len(yes) == 1:
+                    v = "val %d" % yes[0]
+                elif eqs and not yes:
+                    v = "val not:" + ",".join(str(k_) for k_ in sorted(eqs))
             if v.startswith("val not:"):
                 other_err = other_err or (ret.startswith("Err(InvalidEscape") and not pushes)
                 table_found.setdefault("other", set()).add(tuple(sorted(int(x) for x in v[8:].split(","))))
@@ -133,7 +179,7 @@ def run(res, f, tier):
                 c = int(v[4:])
                 if pushes[:1] and pushes[0].lstrip("-").isdigit():
                     table_found[c] = int(pushes[0])
-                elif c == lexical.UNICODE_ESCAPE and (pushes[:1] == ["unescape::parse_unicode!(%s)" % SRC] or ret.startswith("Err(InvalidUnicode")):
+                elif c == lexical.UNICODE_ESCAPE and ((pushes[:1] and pushes[0].startswith(pu_short + "!(") and SRC in pushes[0]) or ret.startswith("Err(InvalidUnicode")):
                     unicode_ok = True
                     table_found[c] = "unicode"
     got = {k: v for k, v in table_found.items() if isinstance(k, int) and v != "unicode"}
@@ -142,7 +188,6 @@ def run(res, f, tier):
     ob(raw_kept, "C08|raw-chars", "a character that is not a backslash must be kept verbatim")
     ob(dangling_err and other_err and table_found.get("other") == {tuple(sorted(list(lexical.ESCAPES) + [lexical.UNICODE_ESCAPE]))},
        "C08|bad-escape", "an unknown or dangling escape must be an error (and exactly the seven known escape letters are recognised)")
-    pu = [d for d in f.bodies if d.endswith("::parse_unicode")]
     if len(pu) == 1:
         outs, it2 = evalsum.summarize_fn(f, pu[0], arg_names=["chars"])
         rets = sorted(set(r for _, r, _, _ in outs))
@@ -150,7 +195,7 @@ def run(res, f, tier):
         ob(has_radix16 and any("char::from_u32" in r or "char::from_u32" in str(cs) for cs, r, _, _ in outs) and any(r.startswith("Err(BraceNotFound") for r in rets),
            "C08|unicode-escape", "\\u{hex} must require braces, read hexadecimal digits and map through char::from_u32 (None -> error): %s" % rets[:4])
     else:
-        ob(False, "C08|unicode-escape", "parse_unicode not found")
+        ob(False, "C08|unicode-escape", "the unicode-escape routine (a function reached from unescape that returns a char or its own error) was not found: %s" % pu)
     # ---- 3. priority / longest match for every overlapping pair
     names = {i: n for n, i in tok.items()}
     ident_i = tok.get("IDENT")
